@@ -28,8 +28,49 @@ Definition EEmptyName : N := 2.
 Definition EUnterminatedExtras : N := 3.
 Definition EInternal : N := 4.
 
-(* strings.Trim(s, whitespace) with the white space set of the source *)
-Definition is_dep_space (c : N) : bool := mem_byte c dep_whitespace.
+(* "Does it have extras?": s1 is not empty in the Go code; s1[0] is read unconditionally *)
+Definition extras_step (s1 : bytes) : res (bytes * bytes) :=
+  c0 <- idx s1 0 ;;
+  if c0 =? 91 (* [ *) then
+    match index_byte 93 s1 with
+    | None => Err EUnterminatedExtras
+    | Some e =>
+        inner <- go_slice s1 1 e ;;
+        after <- go_slice s1 (e + 1) (length s1) ;;
+        Ok (trim inner, after)
+    end
+  else Ok ([], s1).
+
+(* "Does it have a constraint?" *)
+Definition constraint_step (s2 : bytes) : res (bytes * bytes) :=
+  match s2 with
+  | c :: _ =>
+      if negb (c =? 59) (* ; *) then
+        let e := match index_byte 59 s2 with Some e => e | None => length s2 end in
+        pre <- go_slice s2 0 e ;;
+        let c1 := trim pre in
+        c2 <- (if has_prefix [40] c1 && has_suffix [41] c1
+               then go_slice c1 1 (length c1 - 1) else Ok c1) ;;
+        post <- go_slice s2 e (length s2) ;;
+        Ok (c2, post)
+      else Ok ([], s2)
+  | [] => Ok ([], s2)
+  end.
+
+(* "Anything left must be a condition starting with ';'" *)
+Definition env_step (name extras constr s3 : bytes) : res dependency :=
+  match s3 with
+  | c :: r => if negb (c =? 59) then Err EInternal
+              else Ok (mkdep name extras constr (trim r))
+  | [] => Ok (mkdep name extras constr [])
+  end.
+
+(* everything after the name; rest = s[nameEnd:] *)
+Definition parse_tail (name rest : bytes) : res dependency :=
+  let s1 := trim_left rest in
+  es <- extras_step s1 ;;
+  cs <- constraint_step (snd es) ;;
+  env_step name (fst es) (fst cs) (snd cs).
 
 Definition parse_dependency (v : bytes) : res dependency :=
   if is_nil v then Err EEmptyString else
@@ -40,37 +81,5 @@ Definition parse_dependency (v : bytes) : res dependency :=
   | Some name_end =>
       nm <- go_slice s 0 name_end ;;
       rest <- go_slice s name_end (length s) ;;
-      let s1 := trim_left rest in
-      c0 <- idx s1 0 ;;
-      es <- (if c0 =? 91 (* [ *) then
-               match index_byte 93 s1 with
-               | None => Err EUnterminatedExtras
-               | Some e =>
-                   inner <- go_slice s1 1 e ;;
-                   after <- go_slice s1 (e + 1) (length s1) ;;
-                   Ok (trim inner, after)
-               end
-             else Ok ([], s1)) ;;
-      let extras := fst es in
-      let s2 := snd es in
-      cs <- (match s2 with
-             | c :: _ =>
-                 if negb (c =? 59) (* ; *) then
-                   let e := match index_byte 59 s2 with Some e => e | None => length s2 end in
-                   pre <- go_slice s2 0 e ;;
-                   let c1 := trim pre in
-                   c2 <- (if has_prefix [40] c1 && has_suffix [41] c1
-                          then go_slice c1 1 (length c1 - 1) else Ok c1) ;;
-                   post <- go_slice s2 e (length s2) ;;
-                   Ok (c2, post)
-                 else Ok ([], s2)
-             | [] => Ok ([], s2)
-             end) ;;
-      let constr := fst cs in
-      let s3 := snd cs in
-      match s3 with
-      | c :: r => if negb (c =? 59) then Err EInternal
-                  else Ok (mkdep (canon_name nm) extras constr (trim r))
-      | [] => Ok (mkdep (canon_name nm) extras constr [])
-      end
+      parse_tail (canon_name nm) rest
   end.
